@@ -24,7 +24,7 @@ CHECKS = {
  "C11": ("cwv-app", "conservation monitor over real token holdings vs reported channel balances plus a per-channel escrowed/paid-out ledger, driven through an IBC shim (real ibc_* entry points, real reply) with a MALICIOUS counterparty model and payout fault injection",
          "Holdings >= sum of channel balances per genuine token and paid-out <= escrowed per (channel, token) after every step; forged packets (foreign denom, other port/channel, above outstanding, garbage, unknown channel) must release nothing; failed payouts/refunds must leave escrow untouched.", TBA),
  "C12": ("cwv-app", "ledger monitor (sent / failed-or-timed-out / redeemed per channel and denomination) against Channel{id}, error-ack-no-change check over full state snapshots, decoded SendPacket log, including synthesised v1/v2 storage layouts carried through the real migrate",
-         "Books = ledger after every step with an honest counterparty; every error acknowledgement is compared field-by-field with the pre-state (channel balances, escrow, all user balances); the receive path must never return Err or abort; every accepted transfer's packet is decoded (amount<=u64, denom, true sender, receiver, memo, requested/default timeout). The v2-migration in-flight defect is a recorded known finding.", TBA),
+         "Books = ledger after every step with an honest counterparty; every error acknowledgement is compared field-by-field with the pre-state (channel balances, escrow, all user balances); the receive path must never return Err or abort; every accepted transfer's packet is decoded (amount<=u64, denom, true sender, receiver, memo, requested/default timeout). Two defects of the legacy (v2) balance migration - an in-flight denomination without channel state, and own holdings booked as in flight - are recorded known findings.", TBA),
  "C13": ("cwv-direct", "online reference-model monitor ((minter, cap, renounced) model) over seeded random minter-heavy histories on cw20-base",
          "Minter and TokenInfo are compared with an independent model after every call: only the current minter mints, never beyond the cap, cap survives hand-overs, former minters and everyone after renounce are refused forever, the current minter is never refused a hand-over.", TB),
  "C14": ("cwv-direct", "online invariant + message-log monitor: Admin/Hooks/members compared before/after every call; every hook notification in Response.messages decoded and checked against the true weights before/after",
@@ -45,7 +45,7 @@ CHECKS = {
          "Only governance (or the chain admin via migrate) changes the allow list, default gas limit or admin; entries never disappear, limits never fall, unlimited stays unlimited, the default is never unset; cw20 transfers need an entry or a default; each payout carries the token's entry (even None) else the default; checked across v1/v2 migrations too.", TBA),
  "C19": ("cwv-direct", "online consistency monitor of three query views over seeded random histories, including synthesised pre-0.14 storage carried through the real migrate",
          "After every call the Allowance point query, paged AllAllowances and paged AllSpenderAllowances are compared for all pool pairs; a third of the histories start from a legacy layout (versions 0.9-0.13, no spender table) and run the real migrate first.", TB),
- "C20": ("cwv-app", "pagination walker: every listing of every contract is walked to exhaustion with 13 limits, cursor = last returned key, and compared with the item set the harness created and with the point queries",
+ "C20": ("cwv-app", "pagination walker: every listing of every contract is walked to exhaustion with 21 limits, cursor = last returned key, and compared with the item set the harness created and with the point queries",
          "16 listings x item counts {0,1,9,10,11,29,30,31,32,65} (complete grid) plus random sizes in the thorough tier: page <= min(limit|10,30), no empty page before the end, absent limit pages exactly like limit 10, keys strictly ordered (descending for ReverseProposals), walk = item set, listed values = point queries; subkeys allowances with expired entries interleaved.", TBA),
 }
 
